@@ -14,7 +14,7 @@ def run(chk):
     chk.rule = ("modes -f (general path with -g -p -t -s -j -r, fast path, dispatch), -c, -l (both algorithms, -m, --no-join), -M (random "
                 "segmentation); inputs over {delimiter bytes, x, y, LF, NUL, CR, 0xFF} (valid UTF-8 for -c/-l) with 1-4 records; each case is "
                 "run as given and with -z toggled on the LF↔NUL-swapped input; non-trivial = selects a byte or fails")
-    run_corpus(chk)
+    run_corpus(chk, spec=False)
     rng = chk.rng
     n = 30000 if chk.tier == "quick" else 300000
     A, B = [], []
